@@ -114,6 +114,22 @@ fn compute_non_local_scalars(cfg: &il::ControlFlowGraph) -> HashSet<il::Scalar> 
                     killed.insert(scalar);
                 });
         });
+
+        // The conditions of the outgoing edges are evaluated at the end of the block.
+        // A scalar read there without being killed in the block is live on entry as well.
+        if let Ok(edges) = cfg.edges_out(block.index()) {
+            for edge in edges {
+                if let Some(condition) = edge.condition() {
+                    condition
+                        .scalars()
+                        .into_iter()
+                        .filter(|scalar| !killed.contains(scalar))
+                        .for_each(|scalar| {
+                            non_locals.insert(scalar.clone());
+                        });
+                }
+            }
+        }
     }
 
     non_locals
